@@ -97,9 +97,10 @@ Theorem C02_history : forall o steps p x s p' x' s',
 Proof. exact run_epochs_full. Qed.
 Print Assumptions C02_history.
 
-(* "succeeds without error".  Hypotheses: the invariant; no stale elimination marks; the survival
-   threshold keeps at least the champion of a species ([survivors_ok]: floor(SurvivalThresh*n+1) >= 1
-   for n >= 1); the population does not die out ([survives]: purgeZeroOffspringSpecies keeps a
+(* "succeeds without error".  Hypotheses: the invariant; no stale elimination marks; fewer than 2^31
+   organisms; the survival threshold keeps at least the champion of a species ([survivors_ok]:
+   int(floor(SurvivalThresh*n+1)) >= 1 for 1 <= n < 2^31 - a negative value, which the amd64
+   conversion also produces for NaN / +Inf / >= 2^63, makes adjustFitness panic); the population does not die out ([survives]: purgeZeroOffspringSpecies keeps a
    species); PopSize > 0; CompatThreshold <> 0; and the quota hypothesis: the offspring quotas
    after prepareForReproduction total PopSize (C09 proves this from "the floor-and-carry total does
    not exceed PopSize").
@@ -112,7 +113,7 @@ Print Assumptions C02_history.
    prepare, speciate, finalize) never occur.  Partial: failures inside [one_baby] are not analysed
    (they belong to the operators of C01 and to the parent draws). *)
 Theorem C02_no_error_partial : forall o gen p x s,
-  Part p -> Fresh p -> survivors_ok o -> survives o p -> 0 < o_pop_size o ->
+  Part p -> Fresh p -> zlen (p_orgs p) < 2 ^ 31 -> survivors_ok o -> survives o p -> 0 < o_pop_size o ->
   PrimFloat.eqb (o_compat_thresh o) 0 = false ->
   (forall p1 sorted best s1, prepare o p s = Ok ((p1, sorted, best), s1) ->
                              sum_exp (p_species p1) = o_pop_size o) ->
@@ -129,7 +130,7 @@ Print Assumptions C02_no_error_partial.
 (* hence: if the per-baby body never fails (other than by exhausting the tape) in a reachable
    state, the epoch succeeds or exhausts the tape *)
 Theorem C02_no_error_modulo_one_baby_partial : forall o gen p x s,
-  Part p -> Fresh p -> survivors_ok o -> survives o p -> 0 < o_pop_size o ->
+  Part p -> Fresh p -> zlen (p_orgs p) < 2 ^ 31 -> survivors_ok o -> survives o p -> 0 < o_pop_size o ->
   PrimFloat.eqb (o_compat_thresh o) 0 = false ->
   (forall p1 sorted best s1, prepare o p s = Ok ((p1, sorted, best), s1) ->
                              sum_exp (p_species p1) = o_pop_size o) ->
@@ -144,7 +145,7 @@ Print Assumptions C02_no_error_modulo_one_baby_partial.
 
 (* prepareForReproduction by itself never fails (it only consumes randomness when babies are stolen) *)
 Theorem C02_prepare_no_error : forall o p s,
-  Part p -> Fresh p -> survivors_ok o -> survives o p ->
+  Part p -> Fresh p -> zlen (p_orgs p) < 2 ^ 31 -> survivors_ok o -> survives o p ->
   prepare o p s = OutOfTape \/
   exists p1 sorted best s1, prepare o p s = Ok ((p1, sorted, best), s1) /\
                             forall y, In y (p_species p1) -> sp_orgs y <> [].
@@ -154,7 +155,7 @@ Print Assumptions C02_prepare_no_error.
 (* the full statement (not proved): with well-formed genomes and a tape of genuine 63-bit draws
    the hypothesis about [one_baby] is discharged as well *)
 Definition C02_full : Prop := forall o gen p x s,
-  Part p -> Fresh p -> survivors_ok o -> survives o p -> 0 < o_pop_size o ->
+  Part p -> Fresh p -> zlen (p_orgs p) < 2 ^ 31 -> survivors_ok o -> survives o p -> 0 < o_pop_size o ->
   PrimFloat.eqb (o_compat_thresh o) 0 = false ->
   (forall p1 sorted best s1, prepare o p s = Ok ((p1, sorted, best), s1) ->
                              sum_exp (p_species p1) = o_pop_size o) ->
@@ -239,10 +240,16 @@ Proof. vm_compute. reflexivity. Qed.
 (*   acts_ok o               NodeActivators is not empty; with two or more entries there are as   *)
 (*                           many probabilities and their float total is finite and >= 0           *)
 (*   exps_nonneg h           no organism of the heap carries a negative ExpectedOffspring          *)
+(*                           (an invariant of runs; since int(x) is modelled as on amd64 it is no   *)
+(*                           longer a hypothesis of the theorems: NaN and +Inf are "not negative"   *)
+(*                           but convert to math.MinInt64)                                          *)
+(*   survivors_ok o          int(floor(SurvivalThresh*n+1)) >= 1 for every species size n < 2^31    *)
 (*   quota_sum_ok o p        "Hsum", the one float-dependent hypothesis: the floor-and-carry total *)
 (*                           countOffspring accumulates over all species does not exceed PopSize   *)
 (*                           (in exact arithmetic it equals PopSize: C09_total_exact; the harness  *)
-(*                           monitors it on the implementation)                                    *)
+(*                           monitors it on the implementation), and no species' computed quota is *)
+(*                           negative (a negative quota is math.MinInt64, the amd64 conversion of   *)
+(*                           an ExpectedOffspring that is NaN, +Inf or >= 2^63)                     *)
 (*   quota_run_ok o steps p x s   quota_sum_ok in every epoch of the run                           *)
 (*   GInv C p e R NR         the registry invariant of C03 (props/C03.v)                           *)
 (* ============================================================================================ *)
@@ -266,7 +273,11 @@ Theorem C02_vocabulary :
      forall h1 sps1 p2 sps T,
        adjust_all o (p_heap p) (p_species p) = Ok (h1, sps1) ->
        purge_zero_offspring (p_with p sps1 (p_detached p) (p_orgs p) h1) = Ok p2 ->
-       count_all (p_heap p2) sps1 0%float 0 = Ok (sps, T) -> T <= o_pop_size o) /\
+       count_all (p_heap p2) sps1 0%float 0 = Ok (sps, T) ->
+       T <= o_pop_size o /\ forall sp, In sp sps -> 0 <= sp_exp sp) /\
+  (forall o, survivors_ok o <->
+     forall n, 1 <= n < 2 ^ 31 ->
+       1 <= f_trunc_Z (ffloor (PrimFloat.add (PrimFloat.mul (o_survival o) (f_of_Z n)) 1%float))) /\
   (forall o fs gen rest p x s, quota_run_ok o ((fs, gen) :: rest) p x s <->
      forall h, set_fitness (p_heap p) (p_orgs p) fs = Ok h ->
        quota_sum_ok o (p_with_heap p h) /\
@@ -309,9 +320,10 @@ Print Assumptions C02_mutators_keep_records.
    draws: if the population satisfies the book-keeping invariant (Part, Fresh, PopSize organisms)
    and the registry invariant of C03 for some context C (all genomes well-formed, consistent with
    the innovation environment, relatives of one another with the trait shape of C), the innovation
-   records name valid trait indices, no ExpectedOffspring is negative, and the options are sane
+   records name valid trait indices, and the options are sane
    (0 < PopSize < 2^31, activators usable, survival threshold keeps the champion, CompatThreshold
-   not 0), then under Hsum NextEpoch returns a population or runs out of tape.  No error return
+   not 0), then under Hsum (the chain total does not exceed PopSize and no computed quota is negative)
+   NextEpoch returns a population or runs out of tape.  No error return
    and no panic of the whole turnover is reachable: neither in the epoch's own book-keeping
    (C02_no_error_partial) nor in duplicate, the mutators, the three crossovers and the parent
    draws of the per-baby body. *)
@@ -319,14 +331,17 @@ Theorem C02_epoch_succeeds : forall C o gen p x s R NR,
   Part p -> Fresh p -> zlen (p_orgs p) = o_pop_size o -> 0 < o_pop_size o < 2 ^ 31 ->
   GInv C p (s_env s) R NR -> records_traits_ok (s_env s) (zlen (c_tshape C)) ->
   acts_ok o -> survivors_ok o -> PrimFloat.eqb (o_compat_thresh o) 0 = false ->
-  exps_nonneg (p_heap p) -> quota_sum_ok o p -> tape_ok (s_tape s) ->
+  quota_sum_ok o p -> tape_ok (s_tape s) ->
   (exists r, next_epoch o gen p x s = Ok r) \/ next_epoch o gen p x s = OutOfTape.
 Proof. exact epoch_succeeds. Qed.
 Print Assumptions C02_epoch_succeeds.
 
-(* the hypothesis survivors_ok (at least the champion of a species survives: floor(SurvivalThresh*n+1) >= 1
-   for every n >= 1) holds for every SurvivalThresh in [0, 1]; "finite and not negative" would not be
-   enough: for SurvivalThresh = 2^1023 the product overflows and Go's int(+Inf) is modelled as 0 *)
+(* the hypothesis survivors_ok (at least the champion of a species survives: int(floor(SurvivalThresh*n+1)) >= 1
+   for every species size 1 <= n < 2^31) holds for every SurvivalThresh in [0, 1] (indeed up to 2^29:
+   C10_num_parents_positive); "finite and not negative" would not be enough: for SurvivalThresh = 2^1023
+   the product overflows to +Inf and Go's int(+Inf) is math.MinInt64 = -2^63 on amd64 (the model follows
+   amd64: F64.f_trunc_Z, platform assumption "amd64-cvttsd2sq"); a negative numParents then makes
+   adjustFitness panic with an index out of range (C02_adjust_fitness_panics_on_survival_overflow) *)
 Theorem C02_survivors_ok_sufficient : forall o,
   PrimFloat.leb 0 (o_survival o) = true -> PrimFloat.leb (o_survival o) 1 = true -> survivors_ok o.
 Proof. exact survivors_ok_unit. Qed.
@@ -439,7 +454,8 @@ Print Assumptions C02_history_fails_subnormal.
    Species.adjustFitness).  For every population satisfying the book-keeping invariant with PopSize
    organisms: if there are at most 2^20 organisms, AgeSignificance lies in [2^-32, 2^32], every raw
    fitness value f is finite with 0 <= f <= 2^900 and at least one is >= 2^-900 (this excludes the
-   finding above), then the floor-and-carry total of the offspring chain does not exceed PopSize.
+   finding above), then the floor-and-carry total of the offspring chain does not exceed PopSize and
+   no computed quota is negative (every ExpectedOffspring is a finite value in [0, 2^21]).
    Through adjustFitness (x0.01 stagnation penalty, x AgeSignificance youth boost, division by the
    species size: the shared values stay in [0, 2^1000] and one stays >= 2^-1000), then the binary64
    error analysis of proofs/QuotaFloatSumA.v (Flocq): T <= n + 2^-10 < n + 1. *)
@@ -462,7 +478,6 @@ Theorem C02_epoch_succeeds_from_fitness : forall C o gen p x s R NR,
   Part p -> Fresh p -> zlen (p_orgs p) = o_pop_size o -> 0 < o_pop_size o < 2 ^ 31 ->
   GInv C p (s_env s) R NR -> records_traits_ok (s_env s) (zlen (c_tshape C)) ->
   acts_ok o -> survivors_ok o -> PrimFloat.eqb (o_compat_thresh o) 0 = false ->
-  exps_nonneg (p_heap p) ->
   (zlen (p_orgs p) <= 2 ^ 20 /\
    (PrimFloat.leb 0x1p-32%float (o_age_sig o) = true /\ PrimFloat.leb (o_age_sig o) 0x1p+32%float = true) /\
    (forall k y, In k (p_orgs p) -> hget (p_heap p) k = Ok y ->
@@ -516,4 +531,71 @@ Proof.
       repeat (destruct Hf as [<-|Hf]; [split; vm_compute; reflexivity|]). destruct Hf.
     - apply Exists_cons_hd. vm_compute. reflexivity. }
   repeat constructor; exact H || apply H.
+Qed.
+
+(* ============================================================================================ *)
+(* agent-trunc: Go's int(x) for float64 x is modelled for EVERY x as compiled for amd64            *)
+(* (base/F64.v, f_trunc_Z; platform assumption "amd64-cvttsd2sq": CVTTSD2SQ yields the integer      *)
+(* indefinite math.MinInt64 = -2^63 for NaN, +Inf, -Inf and every finite value outside             *)
+(* [-2^63, 2^63); the Go specification leaves such conversions implementation-defined).  With that  *)
+(* the model reproduces the recorded finding `fitness-overflow-quota-panic` (known_findings.txt).   *)
+(* ============================================================================================ *)
+
+(* the options of C02_epoch_fails_subnormal (PopSize 4, one species) with AgeSignificance 1.1 *)
+Definition ov_opts : options := OPT [0x1p-01%float; 0x1p+00%float; 0x1.4p+01%float; 0x1p+00%float; 0x1p+00%float; 0x1.999999999999ap-02%float; 0x1p+30%float; 0x1.199999999999ap+00%float; 0x1.999999999999ap-04%float; 0x1.412feefadd96fp-01%float; 0x1.999999999999ap-04%float; 0x1.999999999999ap-04%float; 0x1.999999999999ap-04%float; 0x1.ccccccccccccdp-01%float; 0x1.3559a2dae866cp-03%float; 0x1.937e04d94711ap-03%float; 0x1.aaa7660b6ed51p-04%float; 0x1.bb6523f418de7p-01%float; 0x1.21bb238153d06p-03%float; 0x1.3333333333333p-02%float; 0x1.999999999999ap-02%float; 0x1.3333333333333p-02%float; 0x1.3333333333333p-02%float; 0x1.999999999999ap-03%float; 0x1.999999999999ap-03%float] 4 3 20 0 true [12; 4] [0x1p-01%float; 0x1p-01%float].
+(* raw fitness (1.7e308, 1, 1, 1): finite and positive *)
+Definition ov_fit : list float := [0x1.e42d130773b76p+1023%float; 1%float; 1%float; 1%float].
+
+(* NewPopulation, the evaluator's write-back, one NextEpoch *)
+Definition ov_epoch (o : options) (fit : list float) : res (population * executor * st) :=
+  match new_population o QuotaFloatSum.sn_genome QuotaFloatSum.sn_s0 with
+  | Ok (p, s) => match set_fitness (p_heap p) (p_orgs p) fit with
+                 | Ok h => next_epoch o 1 (p_with_heap p h) QuotaFloatSum.sn_x0 s
+                 | _ => BadOracle
+                 end
+  | _ => BadOracle
+  end.
+
+(* Four organisms of one young species, fitness (1.7e308, 1, 1, 1), AgeSignificance 1.1: all values
+   finite and positive.  The youth boost 1.7e308 * 1.1 overflows to +Inf, the average is +Inf, the
+   expected offspring of organism 0 is +Inf/+Inf = NaN (0 for the others), int(math.Floor(NaN)) =
+   math.MinInt64, the species' quota and the chain total are -2^63, no species has a quota >= 0 to
+   receive the fallback, every species is purged and prepareForReproduction indexes the empty sorted
+   species list: the model's NextEpoch returns the index-out-of-range panic (code 2), as the
+   implementation does ("index out of range [0] with length 0"; the harness family fitnessOverflow
+   compares this very input).  Under the former totalised int(NaN) = 0 the model returned Ok. *)
+Theorem C02_epoch_panics_on_boost_overflow :
+  ov_epoch ov_opts ov_fit = GoPanic 2 /\
+  Forall (fun f => PrimFloat.ltb 0%float f = true /\ PrimFloat.ltb f infinity = true) ov_fit /\
+  PrimFloat.mul 0x1.e42d130773b76p+1023%float (o_age_sig ov_opts) = infinity /\
+  f_trunc_Z (ffloor PrimFloat.nan) = - 2 ^ 63.
+Proof.
+  split; [vm_compute; reflexivity|]. split; [repeat constructor; vm_compute; reflexivity|].
+  split; vm_compute; reflexivity.
+Qed.
+Print Assumptions C02_epoch_panics_on_boost_overflow.
+
+(* the same population with AgeSignificance 1 (no overflow): the epoch succeeds *)
+Example C02_epoch_ok_without_boost :
+  match ov_epoch QuotaFloatSum.sn_opts ov_fit with Ok _ => true | _ => false end = true.
+Proof. vm_compute. reflexivity. Qed.
+
+(* ... and Hsum (quota_sum_ok, now including "no computed quota is negative") fails on the overflow
+   input, as it must by C02_epoch_succeeds: the executable check says so *)
+Example C02_overflow_refutes_hsum :
+  match new_population ov_opts QuotaFloatSum.sn_genome QuotaFloatSum.sn_s0 with
+  | Ok (p, s) => match set_fitness (p_heap p) (p_orgs p) ov_fit with
+                 | Ok h => quota_sum_okb ov_opts (p_with_heap p h)
+                 | _ => true end
+  | _ => true end = false.
+Proof. vm_compute. reflexivity. Qed.
+
+(* SurvivalThresh = 2^1023 (finite, positive): 2^1023 * 4 overflows, int(+Inf) = math.MinInt64 is a
+   negative numParents and adjustFitness panics with an index out of range (the implementation:
+   "index out of range [-9223372036854775808]") *)
+Definition ov_opts_survival : options := OPT [0x1p-01%float; 0x1p+00%float; 0x1.4p+01%float; 0x1p+00%float; 0x1p+00%float; 0x1.999999999999ap-02%float; 0x1p+30%float; 0x1p+00%float; 0x1p+1023%float; 0x1.412feefadd96fp-01%float; 0x1.999999999999ap-04%float; 0x1.999999999999ap-04%float; 0x1.999999999999ap-04%float; 0x1.ccccccccccccdp-01%float; 0x1.3559a2dae866cp-03%float; 0x1.937e04d94711ap-03%float; 0x1.aaa7660b6ed51p-04%float; 0x1.bb6523f418de7p-01%float; 0x1.21bb238153d06p-03%float; 0x1.3333333333333p-02%float; 0x1.999999999999ap-02%float; 0x1.3333333333333p-02%float; 0x1.3333333333333p-02%float; 0x1.999999999999ap-03%float; 0x1.999999999999ap-03%float] 4 3 20 0 true [12; 4] [0x1p-01%float; 0x1p-01%float].
+Example C02_adjust_fitness_panics_on_survival_overflow :
+  ov_epoch ov_opts_survival [4; 3; 2; 1]%float = GoPanic 2 /\ ~ survivors_ok ov_opts_survival.
+Proof.
+  split; [vm_compute; reflexivity|]. exact (proj1 (proj2 (proj2 (survivors_ok_overflow_refuted ov_opts_survival eq_refl)))).
 Qed.
